@@ -62,11 +62,30 @@ def make_content(spec):
     """Deterministic bytes from a JSON-able spec [n, k] (or {"b64": ...})."""
     if isinstance(spec, dict):
         return base64.b64decode(spec["b64"])
-    n, k = spec
+    n, k = spec[0], spec[1]
+    mode = spec[2] if len(spec) > 2 else None
     if n == 0:
         return b""
     blk = bytes(((k * 31 + i * 7 + (i >> 8) * 13) % 251) for i in range(min(n, 4099)))
     out = (blk * (n // len(blk) + 1))[:n]
+    # content shapes that defeat "clever" writers: runs of zeros (sparse files), constant bytes,
+    # a zero tail / head / middle, line-structured text
+    if mode == "zeros":
+        out = bytes([k % 2]) + b"\0" * (n - 1) if k % 3 == 0 and n > 1 else b"\0" * n
+    elif mode == "ztail":
+        cut = n // 3
+        out = out[:cut] + b"\0" * (n - cut)
+    elif mode == "zhead":
+        cut = n - n // 3
+        out = b"\0" * cut + out[cut:]
+    elif mode == "zmid":
+        a, b = n // 4, n - n // 4
+        out = out[:a] + b"\0" * (b - a) + out[b:]
+    elif mode == "ff":
+        out = b"\xff" * n
+    elif mode == "text":
+        line = ("line %d of content %d\r\n" % (k, k)).encode()
+        out = (line * (n // len(line) + 1))[:n]
     return out
 
 
